@@ -28,6 +28,7 @@ def run(ctx, rep):
                    "projection, re-inserted by the variable conversion; and that conversion binds the call the base class makes", floor=3)
     rep.rule("Q3", "a class overriding an object-level projection also overrides its variable-level twin (the optimiser closures and the "
                    "variable-level physical projection dispatch to the twin)", floor=2)
+    rep.rule("Q5", "is_cp applies the positive-semidefiniteness test to the dissipator matrix calc_k_mat() itself (or to (K + K†)/2)", floor=1)
     rep.rule("Q4", "sparse fast paths: the coefficient vector handed to a pre-computed basis table enumerates K in the order the table's "
                    "rows were built, so that every K[r, c] multiplies the same matrix as in the reference (`_slowly`) sum", floor=2)
     cls = ix.cls(C)
@@ -81,6 +82,7 @@ def run(ctx, rep):
     # ---- Q3
     _q3(ctx, rep)
     _q4(ctx, rep)
+    _q5(ctx, rep, cls)
 
 
 def _spectral_inline(rep, f: Func):
@@ -409,3 +411,60 @@ def _q4(ctx, rep):
         rep.check(ok, "Q4", fast, con, "row (i, j) of %s is %s = coefficient K[%s, %s] of the reference sum" % (table, unparse(got), first, second),
                   "the sparse path multiplies K[%s, %s] by %s (table %s, coefficient vector `%s`), the reference implementation %s multiplies it "
                   "by %s" % (first, second, unparse(got), table, unparse(argx), slow_n, unparse(term.right)), node=dots[0])
+
+
+# ------------------------------------------------------------------------------ Q5
+def _q5(ctx, rep, cls: Class):
+    """is_cp judges the dissipator matrix itself: the value handed to the PSD test is calc_k_mat() (or its Hermitian part
+    built with the adjoint).  A symmetrisation with the plain transpose keeps Re K only and hides negative directions
+    that come from the imaginary antisymmetric part."""
+    from ..matexpr import product
+    f = cls.methods["is_cp"]
+    calls = [n for n in own_nodes(f.node) if isinstance(n, ast.Call) and (dotted(n.func) or "").endswith("is_positive_semidefinite")]
+    if len(calls) != 1 or not calls[0].args:
+        rep.undecided("Q5", f, "PSD test", "expected one call of is_positive_semidefinite")
+        return
+    call = calls[0]
+    binds = {}
+    for n in sorted((x for x in own_nodes(f.node) if isinstance(x, ast.Assign) and len(x.targets) == 1 and isinstance(x.targets[0], ast.Name)),
+                    key=lambda x: x.lineno):
+        binds.setdefault(n.targets[0].id, []).append(n.value)
+
+    def is_k(e):
+        while isinstance(e, ast.Name) and e.id in binds and len(binds[e.id]) >= 1:
+            cands = [b for b in binds[e.id] if not any(isinstance(x, ast.Name) and x.id == e.id for x in ast.walk(b))]
+            if len(cands) != 1:
+                return False
+            e = cands[0]
+        return unparse(e) == "self.calc_k_mat()"
+    arg = call.args[0]
+    # follow the last binding of a name
+    if isinstance(arg, ast.Name) and arg.id in binds:
+        last = binds[arg.id][-1]
+    else:
+        last = arg
+    if is_k(last):
+        rep.holds("Q5", f, call, "PSD test on calc_k_mat() itself", node=call)
+        return
+    # (X + Y) / 2 or 0.5 * (X + Y)
+    e = last
+    half = False
+    if isinstance(e, ast.BinOp) and isinstance(e.op, ast.Div) and is_num(e.right, 2):
+        e, half = e.left, True
+    elif isinstance(e, ast.BinOp) and isinstance(e.op, ast.Mult) and (is_num(e.left, 0.5) or is_num(e.right, 0.5)):
+        e, half = (e.right if is_num(e.left, 0.5) else e.left), True
+    if half and isinstance(e, ast.BinOp) and isinstance(e.op, ast.Add):
+        pl, pr = product(e.left), product(e.right)
+        if len(pl) == 1 and len(pr) == 1 and pl[0][0] == pr[0][0] and is_k(ast.parse(pl[0][0], mode="eval").body if pl[0][0] not in binds else ast.Name(id=pl[0][0], ctx=ast.Load())):
+            a, b = pl[0], pr[0]
+            plain = (a[1], a[2]) == (False, False) or (b[1], b[2]) == (False, False)
+            other = b if (a[1], a[2]) == (False, False) else a
+            if plain and other[1] and other[2]:
+                rep.holds("Q5", f, call, "PSD test on the Hermitian part (K + K†)/2", node=call)
+                return
+            if plain and other[2] and not other[1]:
+                rep.violation("Q5", f, call, "the PSD test is applied to (K + K^T)/2 = Re K for Hermitian K: the conjugate is missing, so a dissipator "
+                              "matrix whose negative direction comes from its imaginary antisymmetric part is judged completely positive",
+                              node=call)
+                return
+    rep.undecided("Q5", f, call, "value handed to the PSD test (`%s`) is neither calc_k_mat() nor its Hermitian part" % unparse(last))
